@@ -29,8 +29,8 @@ var extPrelude = strings.NewReplacer("@@ONE@@", f64lit(1), "@@MONE@@", f64lit(-1
 (declare-fun pf_ok (Str) Bool)
 (declare-fun pf_val (Str) F64)
 (declare-fun fmtf (F64) Str)
-(declare-fun pi_ok (Str) Bool)
-(declare-fun pi_val (Str) Int)
+(declare-fun pi_ok (Str Int) Bool)
+(declare-fun pi_val (Str Int) Int)
 (declare-fun uni_isdigit (Int) Bool)
 (declare-fun uni_isletter (Int) Bool)
 (declare-fun re_ok (Str) Bool)
@@ -111,8 +111,9 @@ func (e *Enc) external(cur *cursor, v ssa.Value, callee *ssa.Function, args []Va
 		set(fmt.Sprintf("(pf_val %s)", at(0)), errT)
 	case "strconv.ParseInt":
 		errT := e.fresh("pierr", "Any")
-		e.assume(cur.guard, fmt.Sprintf("(= (= %s ANil) (pi_ok %s))", errT, at(0)))
-		set(fmt.Sprintf("(pi_val %s)", at(0)), errT)
+		// the base is part of the function: ParseInt(s, 0, ..) reads a leading 0 as octal
+		e.assume(cur.guard, fmt.Sprintf("(= (= %s ANil) (pi_ok %s %s))", errT, at(0), at(1)))
+		set(fmt.Sprintf("(pi_val %s %s)", at(0), at(1)), errT)
 	case "strconv.FormatFloat":
 		set(fmt.Sprintf("(fmtf %s)", at(0)))
 	case "unicode.IsDigit":
@@ -222,6 +223,13 @@ func (e *Enc) fprint(cur *cursor, v ssa.Value, full string, callee *ssa.Function
 	}
 	var text string
 	isF := strings.HasSuffix(full, "f")
+	if isF {
+		// a format that is not a compile-time constant is interpreted for directives: whatever '%' the
+		// text contains is consumed (the fmt vet check, as an obligation)
+		if _, ok := c.Args[ai].(*ssa.Const); !ok {
+			e.oblige(cur.guard, "fmtconst", fmt.Sprintf("%sfmtconst#%d", cur.fc.tag, e.ordinal(cur.fc.tag+"fmtconst")), "false", []string{"C01"}, c.Pos(), full+": the format string is not a constant, so text containing '%' would not be written verbatim")
+		}
+	}
 	isLn := strings.HasSuffix(full, "ln")
 	var fmtS string
 	rest := c.Args[ai:]
